@@ -1014,6 +1014,84 @@ func (r *Run) checkPublishedOnce(name, why string, writes []fieldAccess) {
 
 var reRecvContainer = regexp.MustCompile(`^recv\.([A-Za-z_][A-Za-z0-9_]*)(\[[^\]]*\])*$`)
 
+// internalUnderLock: fn is unexported, every call site holds a lock of the receiver's own struct, and no caller
+// returns (or stores into a field) what fn handed back.
+func (r *Run) internalUnderLock(fn *Func, owner *types.Named) bool {
+	if fn.Obj == nil || fn.Obj.Exported() {
+		return false
+	}
+	held := false
+	pre := r.P.OwnerName(owner) + "."
+	for k := range r.entryLocks(fn) {
+		if strings.HasPrefix(k, pre) {
+			held = true
+		}
+	}
+	if !held {
+		return false
+	}
+	for _, g := range r.P.All {
+		info := g.Info()
+		got := map[types.Object]bool{}
+		ast.Inspect(g.Body, func(nd ast.Node) bool {
+			as, ok := nd.(*ast.AssignStmt)
+			if !ok || len(as.Rhs) != 1 {
+				return true
+			}
+			call, ok := ast.Unparen(as.Rhs[0]).(*ast.CallExpr)
+			if !ok {
+				return true
+			}
+			if f, _ := calleeObj(info, call).(*types.Func); f != fn.Obj {
+				return true
+			}
+			for _, l := range as.Lhs {
+				if id, ok := ast.Unparen(l).(*ast.Ident); ok {
+					if o := objOf(info, id); o != nil {
+						got[o] = true
+					}
+				} else {
+					got[nil] = true // stored somewhere else than a local
+				}
+			}
+			return true
+		})
+		if got[nil] {
+			return false
+		}
+		if len(got) == 0 {
+			continue
+		}
+		leaks := false
+		ast.Inspect(g.Body, func(nd ast.Node) bool {
+			switch v := nd.(type) {
+			case *ast.ReturnStmt:
+				for _, res := range v.Results {
+					if id, ok := ast.Unparen(res).(*ast.Ident); ok && got[info.Uses[id]] {
+						switch info.TypeOf(res).Underlying().(type) {
+						case *types.Map, *types.Slice:
+							leaks = true
+						}
+					}
+				}
+			case *ast.AssignStmt:
+				for k, rh := range v.Rhs {
+					if id, ok := ast.Unparen(rh).(*ast.Ident); ok && got[info.Uses[id]] && k < len(v.Lhs) {
+						if _, isSel := ast.Unparen(v.Lhs[k]).(*ast.SelectorExpr); isSel {
+							leaks = true
+						}
+					}
+				}
+			}
+			return true
+		})
+		if leaks && g != fn {
+			return false
+		}
+	}
+	return true
+}
+
 func ruleNoEscape(r *Run) {
 	if r.broken() {
 		return
@@ -1058,6 +1136,9 @@ func ruleNoEscape(r *Run) {
 					continue
 				}
 				n++
+				if r.internalUnderLock(fn, rn) {
+					continue // an unexported helper that only runs under its struct's lock and whose callers keep the container to themselves
+				}
 				// fields never written after construction may be handed out
 				r.Check("F5", fn.Name+":returns["+fv.Name()+"]", !r.fieldWrittenOutsideCtor(rn, fv), res.Pos(),
 					"%s returns the lock-protected container %s itself (%s): callers read or write it without the lock", fn.Name, fv.Name(), c)
